@@ -29,7 +29,7 @@ def cutOracles (base : Oracles) (raw : List (List String)) (full : List (Nat × 
           else if st == "reader" then .inl .reader
           else .inl .other)
     | _ => none)
-  { base with gz := fun off => (gzs.find? (fun e => e.1 == off)).map (·.2) }
+  { base with gz := fun b => (gzs.find? (fun e => e.1 == cut - b.length)).map (·.2) }
 
 /-- cuts <opts> <file> <from> <to> <oracles>: read every prefix of the file with from ≤ length ≤ to -/
 def handleCuts (args : List String) : String :=
